@@ -141,7 +141,7 @@ impl StreamId {
     
     /// Generate next ID atomically with optimized timestamp caching
     #[inline(always)]
-    pub fn generate_next_atomic(last_millis: &AtomicU64, last_seq: &AtomicU64) -> Self {
+    pub fn generate_next_atomic(last_millis: &AtomicU64, last_seq: &AtomicU64) -> Option<Self> {
         let now_millis = get_cached_millis();
         let prev_millis = last_millis.load(Ordering::Relaxed);
         
@@ -155,7 +155,7 @@ impl StreamId {
             ) {
                 Ok(_) => {
                     last_seq.store(0, Ordering::Relaxed);
-                    return StreamId::new(now_millis, 0);
+                    return Some(StreamId::new(now_millis, 0));
                 }
                 Err(actual) => {
                     // Someone else updated, use their value
@@ -168,7 +168,7 @@ impl StreamId {
                             Ordering::Relaxed
                         ).is_ok() {
                             last_seq.store(0, Ordering::Relaxed);
-                            return StreamId::new(now_millis, 0);
+                            return Some(StreamId::new(now_millis, 0));
                         }
                     }
                     // Fall through to sequence increment
@@ -176,9 +176,17 @@ impl StreamId {
             }
         }
         
-        // Same millisecond, increment sequence
-        let seq = last_seq.fetch_add(1, Ordering::Relaxed);
-        StreamId::new(prev_millis, seq + 1)
+        // Same millisecond, increment sequence; when the sequence is exhausted move to the
+        // next millisecond, and when that is exhausted too report it (None)
+        let seq = last_seq.load(Ordering::Relaxed);
+        if let Some(next) = seq.checked_add(1) {
+            last_seq.store(next, Ordering::Relaxed);
+            return Some(StreamId::new(prev_millis, next));
+        }
+        let next_millis = prev_millis.checked_add(1)?;
+        last_millis.store(next_millis, Ordering::Relaxed);
+        last_seq.store(0, Ordering::Relaxed);
+        Some(StreamId::new(next_millis, 0))
     }
     
     pub fn min() -> Self {
@@ -221,8 +229,8 @@ impl StreamData {
     
     /// Add entry with auto-generated ID - OPTIMIZED HOT PATH
     #[inline]
-    fn add_auto(&mut self, fields: HashMap<Vec<u8>, Vec<u8>>, stream: &Stream) -> StreamId {
-        let id = StreamId::generate_next_atomic(&stream.last_id_millis, &stream.last_id_seq);
+    fn add_auto(&mut self, fields: HashMap<Vec<u8>, Vec<u8>>, stream: &Stream) -> Option<StreamId> {
+        let id = StreamId::generate_next_atomic(&stream.last_id_millis, &stream.last_id_seq)?;
         
         // Pre-calculate size before creating entry
         let fields_size: usize = fields.iter()
@@ -241,7 +249,7 @@ impl StreamData {
         stream.length.fetch_add(1, Ordering::Relaxed);
         stream.memory_usage.fetch_add(entry_size, Ordering::Relaxed);
         
-        id
+        Some(id)
     }
     
     /// Add entry with specific ID - NO CLONING!
@@ -363,6 +371,11 @@ impl Stream {
     
     /// Add entry with auto-generated ID - DIRECT MUTATION, NO CLONING!
     pub fn add_auto(&self, fields: HashMap<Vec<u8>, Vec<u8>>) -> StreamId {
+        self.try_add_auto(fields).expect("stream ID space exhausted")
+    }
+    
+    /// Add entry with auto-generated ID; None when no ID greater than the last one exists
+    pub fn try_add_auto(&self, fields: HashMap<Vec<u8>, Vec<u8>>) -> Option<StreamId> {
         let mut data = self.data.lock().unwrap();
         data.add_auto(fields, self)
     }
